@@ -14,6 +14,7 @@ from collections.abc import Callable, Collection, Coroutine
 from typing import TYPE_CHECKING, Any, NamedTuple, TypeVar
 
 from kopf._cogs.helpers import typedefs
+from kopf._cogs.helpers import veriftrace
 
 _T = TypeVar('_T')
 
@@ -314,6 +315,9 @@ class Scheduler:
         self._closed = True
         for task in self._running_tasks:
             task.cancel()
+        if veriftrace.enabled:
+            veriftrace.emit('sched.close', running=len(self._running_tasks),
+                            pending=self._pending_coros.qsize())
 
         # Wait until all tasks are fully done (it can take some time). This also includes
         # the pending coros, which are spawned and instantly cancelled (to prevent RuntimeWarnings).
